@@ -108,7 +108,7 @@ def has_call_in_if_branch(t, inside=False):
     return any(has_call_in_if_branch(c, inside) for c in T.children(t))
 
 
-def check_phase(dag, pname, method, pipelines, info, envs, split=None, mode=None):
+def check_phase(dag, pname, method, pipelines, info, envs, split=None, mode=None, case_implicit=0):
     import dagrt.codegen.transform as tr
     from dagrt.codegen.dag_ast import Block, StatementWrapper, create_ast_from_phase
     honour = split is not None
@@ -145,6 +145,22 @@ def check_phase(dag, pname, method, pipelines, info, envs, split=None, mode=None
             sub = {Variable(n): e for n, e in defs.items()}
             seq = [s_.copy(condition=substitute(s_.condition, sub))
                    if getattr(s_, "condition", True) is not True and sub else s_ for s_ in seq]
+        if case_implicit and len(seq) > k:
+            # an implicit solve that reads its own assignee (as an implicit Euler stage does), written by hand
+            # into the tail: x <- solve xs: xs - x - 2*xs = 0 with guess x
+            import dagrt.language as lang
+            from pymbolic import var
+            reals_ = sorted(n_ for n_, v_ in envs[0].get(pname, {}).items()
+                            if not hasattr(v_, "v") and not isinstance(v_, bool) and n_ not in ("<t>", "<dt>"))
+            if reals_:
+                x = reals_[case_implicit % len(reals_)]
+                imp = lang.AssignImplicit(
+                    assignees=(x,), solve_variables=("xs_unknown",),
+                    expressions=(var("xs_unknown") - var(x) - var("<dt>") * var("xs_unknown"),),
+                    other_params={"guess": var(x)}, solver_id="newton",
+                    id="implicit_%d" % (len(seq) + 1000), depends_on=frozenset())
+                seq = seq[:k] + [imp] + seq[k:]
+                info["implicit_solve"] = True
         prefix = tuple(seq[:k])
         from dagrt.codegen.dag_ast import ForLoop
 
@@ -319,7 +335,8 @@ def check_case(case, pipelines=None):
         if m is not None:
             return "phase %s: %s" % (pname, m), info
         if case.get("split") is not None:
-            m = check_phase(dag, pname, method, pls, info, envs, split=case["split"], mode=case.get("mode"))
+            m = check_phase(dag, pname, method, pls, info, envs, split=case["split"], mode=case.get("mode"),
+                            case_implicit=case.get("implicit", 0))
             if m is not None:
                 return "phase %s, guarded statements after position %d: %s" % (pname, case["split"], m), info
     return None, info
@@ -348,7 +365,7 @@ def shrink(sub, case):
     pls = [pl] if pl in PIPELINES else None
     c = {"method": case["method"], "plan": {"max_steps": 1}}
     out = shrink_method_case(c, lambda cc: check_case({"method": cc["method"], "split": case.get("split"),
-                                                       "mode": case.get("mode")}, pls)[0],
+                                                       "mode": case.get("mode"), "implicit": case.get("implicit", 0)}, pls)[0],
                              sig_of, budget=200)
     r = {"method": out["method"]}
     if pls:
@@ -357,12 +374,15 @@ def shrink(sub, case):
         r["split"] = case["split"]
     if case.get("mode") is not None:
         r["mode"] = case["mode"]
+    if case.get("implicit"):
+        r["implicit"] = case["implicit"]
     return r
 
 
 def shard(ctx, n):
     excl_call_in_if = ctx.is_excluded("call_in_ifexpr_branch")
     strat = st.fixed_dictionaries({"method": methods(PROFILE), "split": st.integers(0, 7),
+                                   "implicit": st.sampled_from([0, 0, 0, 1, 2, 3]),
                                    "mode": st.sampled_from(["stmt", "stmt", "stmt_inline", "stmt_inline", "lowered", "lowered_inline",
                                                             "lowered_inline"])})
 
